@@ -23,8 +23,8 @@ template <> inline const char* tname<double> () { return "double"; }
 
 // tolerance constant for reported points whose parameter t is not exactly
 // representable: |got_j - P_j| <= PT_TOL * eps * (|pos_j| + |t*dir_j|).
-// Calibration (pristine tree, 8e7 wide-lattice + 2.4e7 stress cases per run, float
-// and double): worst ratio 0.76 on the wide lattice, 1.60 on the stress inputs.
+// Calibration (pristine tree, thorough run: 2e9 wide-lattice + 8e8 stress cases, float
+// and double): worst ratio 0.76 on the wide lattice, 1.76 on the stress inputs.
 static constexpr double PT_TOL = 16.0;
 
 // ------------------------------------------------------------------ lattice case
